@@ -1,5 +1,5 @@
 (* Union/PropsP.v — C07 for the pipelined buffer's read path. Only statements; proofs in ProofsP.v. *)
-From Verif Require Import Base.Lex Union.Model Union.ModelP Union.ProofsMap Union.ProofsBuf Union.ProofsP.
+From Verif Require Import Base.Lex Union.Model Union.ModelP Union.ProofsMap Union.ProofsBuf Union.ProofsP Union.ProofsPropsP.
 
 (* In every state reachable from a fresh pipelined buffer (any flushed store to start with) by any sequence of
    writes, staging / release / cleanup, batch gets, flush starts, flush completions and flush waits:
@@ -14,11 +14,7 @@ Theorem C07_pipelined_get : forall store ops snap k,
     | Some v => if is_tomb v then None else Some v
     | None => None
     end.
-Proof.
-  intros store ops snap k st.
-  assert (E : p_get st k = p_lookup st k) by (apply p_get_spec; apply pinv_run; apply pinv_empty).
-  split; [exact E|]. unfold pu_get. rewrite E. reflexivity.
-Qed.
+Proof. exact C07_pipelined_get_proof. Qed.
 Print Assumptions C07_pipelined_get.
 
 (* Flushing is invisible to reads: starting a flush (no staging level open), its completion, FlushWait and a
@@ -31,17 +27,7 @@ Theorem C07_pipelined_flush_invisible : forall store ops o k,
   | _ => False
   end ->
   p_lookup (fst (pstep st o)) k = p_lookup st k /\ p_get (fst (pstep st o)) k = p_get st k.
-Proof.
-  intros store ops o k st Ho.
-  assert (I : pinv st) by (apply pinv_run; apply pinv_empty).
-  assert (E : p_lookup (fst (pstep st o)) k = p_lookup st k).
-  { destruct o; try contradiction.
-    - apply p_lookup_flush_ops; [exact I|exact Logic.I].
-    - apply p_lookup_flush; assumption.
-    - apply p_lookup_flush_ops; [exact I|exact Logic.I].
-    - apply p_lookup_flush_ops; [exact I|exact Logic.I]. }
-  split; [exact E|]. rewrite (p_get_spec _ k (pinv_step st o I)), (p_get_spec _ k I). exact E.
-Qed.
+Proof. exact C07_pipelined_flush_invisible_proof. Qed.
 Print Assumptions C07_pipelined_flush_invisible.
 
 (* regression witness (seed C07-6): reading a cached empty value as "not in the flushed store" resurrects a
@@ -51,10 +37,7 @@ Theorem C07_pipelined_empty_as_miss_refuted : exists ops snap k,
   pu_get snap st k = None /\
   (match (match p_get_empty_as_miss st k with Some v => Some v | None => kv_get snap k end) with
    | Some v => if is_tomb v then None else Some v | None => None end) <> None.
-Proof.
-  exists [PDel [97]; PFlush; PFlushDone; PFlushWait; PBatchGet [[97]]], [([97], [120])], [97].
-  vm_compute. split; [reflexivity|discriminate].
-Qed.
+Proof. exact C07_pipelined_empty_as_miss_refuted_proof. Qed.
 Print Assumptions C07_pipelined_empty_as_miss_refuted.
 
 Example pipelined_example :
